@@ -21,7 +21,9 @@ func init() {
 		Assumptions: []string{"no integer overflow in cursor arithmetic (sizes are bounded by the length of the data by the guards themselves)", "bytes.Trim*/TrimSpace/TrimPrefix return sub-slices of their argument"},
 		Mutants: []Mutant{
 			{ID: "C02-eom-window", Desc: "reader looks for the end-of-message marker in the last 1000 bytes only", Rule: "C02/eom-whole-buffer",
-				Edits: []Edit{{File: "driver/netconf/read.go", Old: "\t\tif d.Channel.PromptPattern.Match(b) { //nolint: nestif", New: "\t\ttail := b\n\t\tif len(tail) > d.Channel.PromptSearchDepth {\n\t\t\ttail = tail[len(tail)-d.Channel.PromptSearchDepth:]\n\t\t}\n\n\t\tif d.Channel.PromptPattern.Match(tail) { //nolint: nestif"}}},
+				Edits: []Edit{{File: "driver/netconf/read.go", Old: "\t\tfor d.Channel.PromptPattern.Match(b) { //nolint: nestif", New: "\t\ttail := b\n\t\tif len(tail) > d.Channel.PromptSearchDepth {\n\t\t\ttail = tail[len(tail)-d.Channel.PromptSearchDepth:]\n\t\t}\n\n\t\tfor d.Channel.PromptPattern.Match(tail) { //nolint: nestif"},
+					{File: "driver/netconf/read.go", Old: "\t\t\t\tb = []byte(ss[1])\n\n\t\t\t\tcontinue", New: "\t\t\t\tb = []byte(ss[1])\n\t\t\t\ttail = b\n\n\t\t\t\tcontinue"},
+					{File: "driver/netconf/read.go", Old: "\t\t\tb = nil\n\t\t}\n\n\t\ttime.Sleep(d.Channel.ReadDelay)", New: "\t\t\tb = nil\n\t\t\ttail = nil\n\t\t}\n\n\t\ttime.Sleep(d.Channel.ReadDelay)"}}},
 			{ID: "C02-no-header-bound", Desc: "bound check after the chunk marker removed", Rule: "C02/bounds",
 				Edits: []Edit{{File: "response/netconf.go", Old: "\t\tif cursor >= len(d) {\n\t\t\treturn errNetconf1Dot1ParseError(\n\t\t\t\t\"unable to parse netconf response: data ends inside a chunk header\",\n\t\t\t)\n\t\t}\n\n", New: ""}}},
 			{ID: "C02-cap-instead-of-len", Desc: "chunk size compared with the capacity", Rule: "C02/bounds",
